@@ -852,6 +852,42 @@ impl SvgElement {
         }
     }
 
+    /// What this `clipPath` element, with `clip_bbox` the box of its content, leaves
+    /// of `bbox` (a box in the user space of the element it clips).
+    pub fn clip(
+        &self,
+        bbox: BoundingBox,
+        clip_bbox: Option<BoundingBox>,
+        ctx: &TransformerContext,
+    ) -> Option<BoundingBox> {
+        match clip_bbox {
+            Some(cb) => {
+                if self.get_attr("clipPathUnits").as_deref() == Some("objectBoundingBox") {
+                    // the content is given in fractions of the clipped element's box
+                    let (w, h) = (bbox.width(), bbox.height());
+                    bbox.intersect(&BoundingBox::new(
+                        bbox.x1 + cb.x1 * w,
+                        bbox.y1 + cb.y1 * h,
+                        bbox.x1 + cb.x2 * w,
+                        bbox.y1 + cb.y2 * h,
+                    ))
+                } else {
+                    bbox.intersect(&cb)
+                }
+            }
+            None => {
+                // With nothing inside to draw through, everything is clipped away;
+                // content without a box in user units is left out of account.
+                let has_content = self.inner_events(ctx).is_some_and(|events| {
+                    events
+                        .iter()
+                        .any(|ev| ev.start_name_and_xmlns().is_some())
+                });
+                has_content.then_some(bbox)
+            }
+        }
+    }
+
     /// Apply any `transform` attr transformations to a bbox in this element's user space
     pub fn transformed(&self, bbox: Option<BoundingBox>) -> Result<Option<BoundingBox>> {
         if let (Some(transform), Some(bbox)) = (self.get_attr("transform"), &bbox) {
